@@ -1,11 +1,36 @@
-(* C13_Generated.v — equivalence of the GoLite translation of
-   internal/file.IsValidFileName (theories/C13_Gen.v, regenerated from /repo by
-   `vh-gen` on every run, docs/GOLITE.md) with the file-name predicate of the
-   C13 model, for every string. *)
-From Coq Require Import List Bool String Ascii NArith ZArith.
+(* C13_Generated.v — equivalence of the GoLite translations (theories/C13_Gen.v,
+   regenerated from /repo by `vh-gen` on every run, docs/GOLITE.md) of
+     internal/file.IsValidFileName
+     internal/slices.Contains (instance truststore.Type), truststore.Types
+     truststore.isValidStoreType
+     truststore.ValidateCertificates
+     truststore.isRootCACertificate
+   with the functions of the C13 model that play the same role, for ALL inputs.
+
+   Certificates are values of a dependency (crypto/x509): the generated code is
+   parameterised by an opaque type [Cert] and by oracles
+     is_ca c                 cert.IsCA
+     check_sig c a t s       cert.CheckSignature(a, t, s)           (nil = None)
+     sig_alg / raw_tbs / sig cert.SignatureAlgorithm / .RawTBSCertificate / .Signature
+     check_from c p          cert.CheckSignatureFrom(p)
+     bytes_equal a b         bytes.Equal(a, b)
+     raw_subj / raw_iss      cert.RawSubject / cert.RawIssuer
+   The theorems hold for EVERY choice of them. [agrees abs] says that the model
+   certificate [abs c] carries the four facts the oracles give about [c] (what the
+   harness asks from crypto/x509 per certificate); [abs_of] is the abstraction
+   that does so by construction, so the hypothesis is never vacuous.
+
+   x509TrustStore.GetCertificates itself is outside the translator (see
+   docs/audit/C13.md, section GoLite): [C13_gen_entry_step] / [C13_gen_store_of_files]
+   tie the generated validators to the place of the model (load_entries) where the
+   same decisions are made. *)
+From Coq Require Import List Bool String Ascii NArith ZArith Lia.
 From NV Require Import Base Regex Generated GoLib C13_Model C13_Proofs C13_Gen.
 Import ListNotations.
 Local Open Scope string_scope.
+Local Open Scope list_scope.
+
+(* ================= IsValidFileName ================= *)
 
 Theorem C13_gen_IsValidFileName_equiv :
   forall s, gen_file_IsValidFileName s = is_valid_file_name s.
@@ -24,3 +49,338 @@ Corollary C13_gen_IsValidFileName_plain :
   forall s, gen_file_IsValidFileName s = true <-> plain_name s.
 Proof. intros s. rewrite C13_gen_IsValidFileName_equiv. apply is_valid_file_name_spec. Qed.
 Print Assumptions C13_gen_IsValidFileName_plain.
+
+(* ================= isValidStoreType ================= *)
+
+(* the package-level table as translated = the table of Generated.v = the property's *)
+Theorem C13_gen_store_types_pinned :
+  truststore_Types = gen_store_types /\ truststore_Types = spec_store_types.
+Proof. split; reflexivity. Qed.
+Print Assumptions C13_gen_store_types_pinned.
+
+(* slices.Contains at truststore.Type: membership, for every list and every value *)
+Theorem C13_gen_Contains_equiv :
+  forall l v, gen_slices_Contains_truststore_Type l v = mem_str v l.
+Proof.
+  intros l v. unfold gen_slices_Contains_truststore_Type, mem_str.
+  induction l as [|x l IH]; [reflexivity|].
+  cbn [gen_slices_Contains_truststore_Type_loop1 existsb].
+  rewrite IH. destruct (String.eqb v x); reflexivity.
+Qed.
+Print Assumptions C13_gen_Contains_equiv.
+
+Theorem C13_gen_isValidStoreType_equiv :
+  forall ty, gen_truststore_isValidStoreType ty = is_valid_store_type ty.
+Proof.
+  intros ty. unfold gen_truststore_isValidStoreType, is_valid_store_type.
+  rewrite ?C13_gen_Contains_equiv. change truststore_Types with gen_store_types.
+  destruct (mem_str ty gen_store_types); reflexivity.
+Qed.
+Print Assumptions C13_gen_isValidStoreType_equiv.
+
+(* C13_type_check transported: the code's check accepts exactly ca, signingAuthority, tsa *)
+Corollary C13_gen_isValidStoreType_known :
+  forall ty, gen_truststore_isValidStoreType ty = true <-> known_type ty.
+Proof. intros ty. rewrite C13_gen_isValidStoreType_equiv. apply is_valid_store_type_spec. Qed.
+Print Assumptions C13_gen_isValidStoreType_known.
+
+(* ================= ValidateCertificates, isRootCACertificate ================= *)
+
+(* decides comparisons of list_len with small constants (robust against
+   `len(x) < 1` / `len(x) == 0` / `len(x) <= 0` spellings) *)
+Ltac len_cmp :=
+  repeat rewrite list_len_cons; try rewrite list_len_nil;
+  repeat match goal with
+         | |- context [list_len ?l] =>
+             lazymatch goal with
+             | _ : (0 <= list_len l)%Z |- _ => fail
+             | _ => pose proof (list_len_nonneg l)
+             end
+         end;
+  repeat match goal with
+         | |- context [(?a <? ?b)%Z] => destruct (Z.ltb_spec a b); try lia
+         | |- context [(?a <=? ?b)%Z] => destruct (Z.leb_spec a b); try lia
+         | |- context [(?a =? ?b)%Z] => destruct (Z.eqb_spec a b); try lia
+         | |- context [(?a >? ?b)%Z] => rewrite (Z.gtb_ltb a b)
+         | |- context [(?a >=? ?b)%Z] => rewrite (Z.geb_leb a b)
+         end.
+
+Lemma fb_map {A B} (f : A -> B) (p : B -> bool) l :
+  forallb p (map f l) = forallb (fun x => p (f x)) l.
+Proof. induction l as [|x l IH]; [reflexivity|]. cbn [map forallb]. now rewrite IH. Qed.
+
+Lemma fb_ext {A} (p q : A -> bool) l : (forall x, p x = q x) -> forallb p l = forallb q l.
+Proof. intros H. induction l as [|x l IH]; [reflexivity|]. cbn [forallb]. now rewrite H, IH. Qed.
+
+Section Certs.
+  Variable Cert : Type.
+  Variable check_sig : Cert -> Z -> list Z -> list Z -> option err.
+  Variable check_from : Cert -> Cert -> option err.
+  Variable bytes_equal : list Z -> list Z -> bool.
+  Variable is_ca : Cert -> bool.
+  Variable sig_alg : Cert -> Z.
+  Variables raw_tbs sig raw_subj raw_iss : Cert -> list Z.
+
+  (* the generated functions at these oracles *)
+  Definition VC : list Cert -> option err :=
+    gen_truststore_ValidateCertificates Cert check_sig is_ca sig_alg raw_tbs sig.
+  Definition VC_loop : list Cert -> option err :=
+    gen_truststore_ValidateCertificates_loop1 Cert check_sig is_ca sig_alg raw_tbs sig.
+  Definition ROOT : Cert -> option err :=
+    gen_truststore_isRootCACertificate Cert check_from bytes_equal raw_subj raw_iss.
+
+  (* the four facts, read off the oracles *)
+  Definition f_ca (c : Cert) : bool := is_ca c.
+  Definition f_selfsig (c : Cert) : bool := is_none (check_sig c (sig_alg c) (raw_tbs c) (sig c)).
+  Definition f_sigfrom (c : Cert) : bool := is_none (check_from c c).
+  Definition f_subj_iss (c : Cert) : bool := bytes_equal (raw_subj c) (raw_iss c).
+
+  (* "the oracles answer like the model of them" *)
+  Definition agrees (abs : Cert -> cert) : Prop :=
+    forall c, ct_ca (abs c) = f_ca c /\ ct_selfsig (abs c) = f_selfsig c /\
+              ct_sigfrom (abs c) = f_sigfrom c /\ ct_subj_iss (abs c) = f_subj_iss c.
+
+  (* the abstraction that agrees by construction *)
+  Definition abs_of (id : Cert -> N) (c : Cert) : cert :=
+    mk_cert (id c) (f_ca c) (f_selfsig c) (f_sigfrom c) (f_subj_iss c).
+
+  Lemma abs_of_agrees id : agrees (abs_of id).
+  Proof. intros c. repeat split. Qed.
+
+  (* ---- direct characterisations (no hypothesis at all) ---- *)
+
+  Lemma VC_loop_spec certs :
+    is_none (VC_loop certs) = forallb (fun c => f_ca c || f_selfsig c) certs.
+  Proof.
+    unfold VC_loop, f_ca, f_selfsig. induction certs as [|c certs IH]; [reflexivity|].
+    cbn [gen_truststore_ValidateCertificates_loop1 forallb].
+    destruct (is_ca c); destruct (check_sig c (sig_alg c) (raw_tbs c) (sig c));
+      cbn [is_none negb orb andb]; solve [reflexivity | exact IH].
+  Qed.
+
+  Lemma VC_spec certs :
+    is_none (VC certs)
+    = match certs with [] => false | _ => forallb (fun c => f_ca c || f_selfsig c) certs end.
+  Proof.
+    unfold VC, gen_truststore_ValidateCertificates. fold VC_loop.
+    destruct certs as [|c certs]; [reflexivity|].
+    rewrite <- VC_loop_spec. len_cmp; reflexivity.
+  Qed.
+
+  Lemma ROOT_spec c : is_none (ROOT c) = f_sigfrom c && f_subj_iss c.
+  Proof.
+    unfold ROOT, gen_truststore_isRootCACertificate, f_sigfrom, f_subj_iss.
+    destruct (check_from c c); destruct (bytes_equal (raw_subj c) (raw_iss c)); reflexivity.
+  Qed.
+
+  (* ---- against the model ---- *)
+  Variable abs : Cert -> cert.
+  Hypothesis Hagree : agrees abs.
+
+  Lemma accepted_abs c : cert_accepted (abs c) = f_ca c || f_selfsig c.
+  Proof. unfold cert_accepted. destruct (Hagree c) as (-> & -> & _). reflexivity. Qed.
+
+  Lemma root_abs c : is_root_ca (abs c) = is_none (ROOT c).
+  Proof. unfold is_root_ca. rewrite ROOT_spec. destruct (Hagree c) as (_ & _ & -> & ->). reflexivity. Qed.
+
+  Lemma validate_abs certs : validate_certificates (map abs certs) = is_none (VC certs).
+  Proof.
+    rewrite VC_spec. unfold validate_certificates. destruct certs as [|c certs]; [reflexivity|].
+    cbn [map]. rewrite <- (map_cons abs). rewrite fb_map.
+    apply fb_ext. intros x. apply accepted_abs.
+  Qed.
+
+  Lemma roots_abs certs :
+    forallb is_root_ca (map abs certs) = forallb (fun c => is_none (ROOT c)) certs.
+  Proof. rewrite fb_map. apply fb_ext. intros x. apply root_abs. Qed.
+
+  (* one iteration of the model's loop over the entries, on a regular file whose
+     parser answer is [certs], written with the generated validators *)
+  Lemma entry_step tsa nm certs es acc :
+    load_entries tsa ((nm, NFile (CCerts (map abs certs))) :: es) acc
+    = match VC certs with
+      | Some _ => Failed ECertificate KValidate nm
+      | None =>
+          if tsa && negb (forallb (fun c => is_none (ROOT c)) certs)
+          then Failed ECertificate KNotRoot nm
+          else load_entries tsa es (acc ++ map abs certs)
+      end.
+  Proof.
+    cbn [load_entries]. rewrite validate_abs, roots_abs.
+    destruct (VC certs); reflexivity.
+  Qed.
+
+  Lemma entry_good_gen tsa nm certs :
+    entry_good tsa (nm, NFile (CCerts (map abs certs))) <->
+    VC certs = None /\ (tsa = true -> forall c, In c certs -> ROOT c = None).
+  Proof.
+    rewrite entry_good_file, validate_abs, roots_abs, forallb_forall.
+    assert (N : forall o : option err, is_none o = true <-> o = None)
+      by (intros [e|]; cbn; split; congruence).
+    rewrite N. split; intros [V R]; (split; [exact V|]); intros T c Hc; apply N; now apply R.
+  Qed.
+
+  (* a store directory that holds only regular files: file i is named [fst] and the
+     parser answers [snd] for it *)
+  Definition files_node (files : list (string * list Cert)) : list (string * node) :=
+    map (fun f => (fst f, NFile (CCerts (map abs (snd f))))) files.
+
+  Lemma store_of_files tsa files l :
+    load_entries tsa (files_node files) [] = Loaded l <->
+    (forall f, In f files ->
+       VC (snd f) = None /\ (tsa = true -> forall c, In c (snd f) -> ROOT c = None)) /\
+    l = flat_map (fun f => map abs (snd f)) files /\ l <> [].
+  Proof.
+    rewrite load_entries_ok. cbn [app]. unfold files_node. rewrite Forall_map, Forall_forall.
+    assert (E : flat_map certs_of_entry
+                  (map (fun f => (fst f, NFile (CCerts (map abs (snd f))))) files)
+                = flat_map (fun f => map abs (snd f)) files).
+    { induction files as [|f files IH]; [reflexivity|]. cbn [map flat_map]. now rewrite IH. }
+    rewrite E. split; intros (F & L & NE); (split; [|split; assumption]);
+      intros f Hf; apply (entry_good_gen tsa (fst f) (snd f)); now apply F.
+  Qed.
+End Certs.
+
+(* ---- the theorems, closed over every oracle ---- *)
+
+(* ValidateCertificates returns nil exactly when the model's validate_certificates
+   accepts the abstracted list *)
+Theorem C13_gen_ValidateCertificates_equiv :
+  forall Cert check_sig is_ca sig_alg raw_tbs sig abs,
+    (forall c : Cert, ct_ca (abs c) = is_ca c /\
+                      ct_selfsig (abs c) = is_none (check_sig c (sig_alg c) (raw_tbs c) (sig c))) ->
+    forall certs,
+      is_none (gen_truststore_ValidateCertificates Cert check_sig is_ca sig_alg raw_tbs sig certs)
+      = validate_certificates (map abs certs).
+Proof.
+  intros Cert check_sig is_ca sig_alg raw_tbs sig abs H certs.
+  pose (abs' := fun c => mk_cert (ct_id (abs c)) (ct_ca (abs c)) (ct_selfsig (abs c)) true true).
+  assert (A : agrees Cert check_sig (fun _ _ => None) (fun _ _ => true) is_ca sig_alg raw_tbs sig
+                     (fun _ => []) (fun _ => []) abs').
+  { intros c. destruct (H c) as [H1 H2]. repeat split; assumption. }
+  pose proof (validate_abs Cert check_sig (fun _ _ => None) (fun _ _ => true) is_ca sig_alg raw_tbs sig
+                (fun _ => []) (fun _ => []) abs' A certs) as V.
+  unfold VC in V. rewrite <- V.
+  unfold validate_certificates. destruct certs as [|c certs]; [reflexivity|].
+  cbn [map]. rewrite <- !(map_cons), !fb_map. apply fb_ext. intros x. reflexivity.
+Qed.
+Print Assumptions C13_gen_ValidateCertificates_equiv.
+
+(* direct reading, no abstraction: nil iff non-empty and every certificate is a CA
+   or verifies its own signature *)
+Theorem C13_gen_ValidateCertificates_spec :
+  forall Cert check_sig is_ca sig_alg raw_tbs sig certs,
+    gen_truststore_ValidateCertificates Cert check_sig is_ca sig_alg raw_tbs sig certs = None <->
+    certs <> [] /\
+    forall c : Cert, In c certs ->
+      is_ca c = true \/ check_sig c (sig_alg c) (raw_tbs c) (sig c) = None.
+Proof.
+  intros Cert check_sig is_ca sig_alg raw_tbs sig certs.
+  pose proof (VC_spec Cert check_sig is_ca sig_alg raw_tbs sig certs) as V. unfold VC in V.
+  assert (N : forall o : option err, is_none o = true <-> o = None)
+    by (intros [e|]; cbn; split; congruence).
+  rewrite <- N, V. destruct certs as [|c0 certs].
+  - split; [discriminate | intros [E _]; congruence].
+  - rewrite forallb_forall. unfold f_ca, f_selfsig. split.
+    + intros F. split; [discriminate|]. intros c Hc. specialize (F c Hc).
+      apply orb_true_iff in F. rewrite N in F. exact F.
+    + intros [_ F] c Hc. apply orb_true_iff. rewrite N. now apply F.
+Qed.
+Print Assumptions C13_gen_ValidateCertificates_spec.
+
+Theorem C13_gen_isRootCACertificate_equiv :
+  forall Cert check_from bytes_equal raw_subj raw_iss abs,
+    (forall c : Cert, ct_sigfrom (abs c) = is_none (check_from c c) /\
+                      ct_subj_iss (abs c) = bytes_equal (raw_subj c) (raw_iss c)) ->
+    forall c,
+      is_none (gen_truststore_isRootCACertificate Cert check_from bytes_equal raw_subj raw_iss c)
+      = is_root_ca (abs c).
+Proof.
+  intros Cert check_from bytes_equal raw_subj raw_iss abs H c.
+  pose proof (ROOT_spec Cert check_from bytes_equal raw_subj raw_iss c) as R. unfold ROOT in R.
+  rewrite R. unfold is_root_ca, f_sigfrom, f_subj_iss. destruct (H c) as [-> ->]. reflexivity.
+Qed.
+Print Assumptions C13_gen_isRootCACertificate_equiv.
+
+Theorem C13_gen_isRootCACertificate_spec :
+  forall Cert check_from bytes_equal raw_subj raw_iss (c : Cert),
+    gen_truststore_isRootCACertificate Cert check_from bytes_equal raw_subj raw_iss c = None <->
+    check_from c c = None /\ bytes_equal (raw_subj c) (raw_iss c) = true.
+Proof.
+  intros Cert check_from bytes_equal raw_subj raw_iss c.
+  pose proof (ROOT_spec Cert check_from bytes_equal raw_subj raw_iss c) as R. unfold ROOT in R.
+  assert (N : forall o : option err, is_none o = true <-> o = None)
+    by (intros [e|]; cbn; split; congruence).
+  rewrite <- N, R, andb_true_iff. unfold f_sigfrom, f_subj_iss. rewrite N. reflexivity.
+Qed.
+Print Assumptions C13_gen_isRootCACertificate_spec.
+
+(* the hypothesis [agrees] is satisfiable for every choice of oracles *)
+Theorem C13_gen_agrees_witness :
+  forall Cert check_sig check_from bytes_equal is_ca sig_alg raw_tbs sig raw_subj raw_iss id,
+    agrees Cert check_sig check_from bytes_equal is_ca sig_alg raw_tbs sig raw_subj raw_iss
+           (abs_of Cert check_sig check_from bytes_equal is_ca sig_alg raw_tbs sig raw_subj raw_iss id).
+Proof. intros. apply abs_of_agrees. Qed.
+Print Assumptions C13_gen_agrees_witness.
+
+(* the per-entry decision of GetCertificates as the model makes it (load_entries),
+   expressed with the generated ValidateCertificates / isRootCACertificate *)
+Theorem C13_gen_entry_step :
+  forall Cert check_sig check_from bytes_equal is_ca sig_alg raw_tbs sig raw_subj raw_iss abs,
+    agrees Cert check_sig check_from bytes_equal is_ca sig_alg raw_tbs sig raw_subj raw_iss abs ->
+    forall tsa nm certs es acc,
+      load_entries tsa ((nm, NFile (CCerts (map abs certs))) :: es) acc
+      = match gen_truststore_ValidateCertificates Cert check_sig is_ca sig_alg raw_tbs sig certs with
+        | Some _ => Failed ECertificate KValidate nm
+        | None =>
+            if tsa && negb (forallb (fun c => is_none
+                 (gen_truststore_isRootCACertificate Cert check_from bytes_equal raw_subj raw_iss c)) certs)
+            then Failed ECertificate KNotRoot nm
+            else load_entries tsa es (acc ++ map abs certs)
+        end.
+Proof. intros. now apply entry_step. Qed.
+Print Assumptions C13_gen_entry_step.
+
+(* clauses 5-7 of the property on the generated validators: a regular file is a good
+   entry iff ValidateCertificates returns nil on what the parser gave and, in a tsa
+   store, isRootCACertificate returns nil on each certificate *)
+Theorem C13_gen_entry_good_iff :
+  forall Cert check_sig check_from bytes_equal is_ca sig_alg raw_tbs sig raw_subj raw_iss abs,
+    agrees Cert check_sig check_from bytes_equal is_ca sig_alg raw_tbs sig raw_subj raw_iss abs ->
+    forall tsa nm certs,
+      entry_good tsa (nm, NFile (CCerts (map abs certs))) <->
+      gen_truststore_ValidateCertificates Cert check_sig is_ca sig_alg raw_tbs sig certs = None /\
+      (tsa = true -> forall c, In c certs ->
+         gen_truststore_isRootCACertificate Cert check_from bytes_equal raw_subj raw_iss c = None).
+Proof. intros. now apply entry_good_gen. Qed.
+Print Assumptions C13_gen_entry_good_iff.
+
+(* a store of regular files loads iff the generated validators return nil on every
+   file, and then holds exactly the files' certificates (and at least one) *)
+Theorem C13_gen_store_of_files :
+  forall Cert check_sig check_from bytes_equal is_ca sig_alg raw_tbs sig raw_subj raw_iss abs,
+    agrees Cert check_sig check_from bytes_equal is_ca sig_alg raw_tbs sig raw_subj raw_iss abs ->
+    forall tsa files l,
+      load_entries tsa (files_node Cert abs files) [] = Loaded l <->
+      (forall f, In f files ->
+         gen_truststore_ValidateCertificates Cert check_sig is_ca sig_alg raw_tbs sig (snd f) = None /\
+         (tsa = true -> forall c, In c (snd f) ->
+            gen_truststore_isRootCACertificate Cert check_from bytes_equal raw_subj raw_iss c = None)) /\
+      l = flat_map (fun f => map abs (snd f)) files /\ l <> [].
+Proof. intros. now apply store_of_files. Qed.
+Print Assumptions C13_gen_store_of_files.
+
+(* C13_iff with the two name checks as the code (translated) makes them *)
+Theorem C13_gen_load_iff :
+  forall i l,
+    load i = Loaded l <->
+    gen_truststore_isValidStoreType (i_ty i) = true /\
+    gen_file_IsValidFileName (i_name i) = true /\
+    exists es, lstat (i_root i) (store_path (i_ty i) (i_name i)) = LNode (NDir es) /\
+               Forall (entry_good (is_tsa (i_ty i))) es /\
+               l = flat_map certs_of_entry es /\ l <> [].
+Proof.
+  intros i l. rewrite load_iff. unfold loadable.
+  rewrite C13_gen_isValidStoreType_known, C13_gen_IsValidFileName_plain. reflexivity.
+Qed.
+Print Assumptions C13_gen_load_iff.
